@@ -90,7 +90,33 @@ class Log(ArrowSerializableDataclass):
     last: Reading | None = None
 
 
-DATAS = [Pt, Box, Reading, Log]
+@dataclass(frozen=True)
+class Query(ArrowSerializableDataclass):
+    """Optional fields whose default is NOT None (default= and default_factory=): an explicit None is a value."""
+
+    text: str = "q"
+    limit: int | None = 10
+    ratio: float | None = 0.5
+    label: str | None = "lbl"
+    side: Side | None = Side.RIGHT
+    tags: list[str] | None = field(default_factory=lambda: ["a"])
+    opts: dict[str, int] | None = field(default_factory=lambda: {"k": 1})
+    origin: Pt | None = field(default_factory=lambda: Pt(1, 2.0))
+    flag: bool | None = True
+    none_default: int | None = None
+
+
+@dataclass(frozen=True)
+class Batch(ArrowSerializableDataclass):
+    """Such dataclasses nested, as list elements, and as an Optional field with a non-None default factory."""
+
+    head: Query
+    rest: list[Query] = field(default_factory=list)
+    fallback: Query | None = field(default_factory=Query)
+
+
+ALL_NONE_QUERY = dict(limit=None, ratio=None, label=None, side=None, tags=None, opts=None, origin=None, flag=None)
+DATAS = [Pt, Box, Reading, Log, Query, Batch]
 UNITS = {"s": 1_000_000, "ms": 1_000, "us": 1, "ns": 1}
 EPOCH = dt.datetime(1970, 1, 1)
 EPOCH_AWARE = dt.datetime(1970, 1, 1, tzinfo=dt.timezone.utc)
@@ -139,7 +165,7 @@ def ann_src(t: T) -> str:
 
 _NS: dict[str, Any] = {
     "Annotated": Annotated, "ArrowType": ArrowType, "pa": pa, "dt": dt, "Decimal": Decimal, "Optional": Optional,
-    "Protocol": Protocol, "Color": Color, "Weird": Weird, "Unit": Unit, "Side": Side, "Pt": Pt, "Box": Box, "Reading": Reading, "Log": Log,
+    "Protocol": Protocol, "Color": Color, "Weird": Weird, "Unit": Unit, "Side": Side, "Pt": Pt, "Box": Box, "Reading": Reading, "Log": Log, "Query": Query, "Batch": Batch,
 }
 
 
@@ -294,6 +320,21 @@ def enum_field_differs(a: Any, b: Any) -> bool:
         return any(enum_field_differs(a[k], b[k]) for k in a)
     if isinstance(a, frozenset) and isinstance(b, frozenset):
         return any(isinstance(x, enum.Enum) for x in a | b) and a != b
+    return False
+
+
+def none_field_defaulted(a: Any, b: Any) -> bool:
+    """Somewhere inside the dataclass a, a field that is None came back non-None in b."""
+    import dataclasses
+
+    if isinstance(a, ArrowSerializableDataclass) and type(a) is type(b):
+        for f in dataclasses.fields(a):
+            x, y = getattr(a, f.name), getattr(b, f.name)
+            if (x is None and y is not None) or none_field_defaulted(x, y):
+                return True
+        return False
+    if isinstance(a, (list, tuple)) and isinstance(b, (list, tuple)) and len(a) == len(b):
+        return any(none_field_defaulted(x, y) for x, y in zip(a, b))
     return False
 
 
@@ -577,7 +618,23 @@ def gen_value(t: T, rng: Any, depth: int = 0) -> Any:
 
         if t[1] == 2:
             return reading()
-        return Log(reading(), [reading() for _ in range(rng.choice([0, 1, 2]))], rng.choice([None, reading()]))
+        if t[1] == 3:
+            return Log(reading(), [reading() for _ in range(rng.choice([0, 1, 2]))], rng.choice([None, reading()]))
+
+        def query() -> Query:
+            kw: dict[str, Any] = {}
+            for name, choices in (
+                ("limit", [None, 0, 10, -1]), ("ratio", [None, 0.5, -0.0]), ("label", [None, "", "lbl"]), ("side", [None, Side.LEFT, Side.RIGHT]),
+                ("tags", [None, [], ["a"], ["b", ""]]), ("opts", [None, {}, {"k": 1}]), ("origin", [None, Pt(1, 2.0), Pt(0, -0.0, "")]),
+                ("flag", [None, True, False]), ("none_default", [None, 7]),
+            ):
+                if rng.random() < 0.7:
+                    kw[name] = rng.choice(choices)
+            return Query(rng.choice(["q", "", "é"]), **kw)
+
+        if t[1] == 4:
+            return query()
+        return Batch(query(), [query() for _ in range(rng.choice([0, 1, 2]))], rng.choice([None, query()]))
     if k == "date":
         return rng.choice([dt.date.min, dt.date.max, EPOCH_DATE, dt.date(1969, 12, 31), dt.date(2024, 2, 29), EPOCH_DATE + dt.timedelta(days=rng.randint(-700000, 2900000))])
     if k == "ts":
@@ -652,6 +709,10 @@ def fixed_wells(t: T) -> list[Any]:
         return [r, Reading(0, Unit.M, Side.LEFT)]
     if t == ("data", 3):
         return [Log(r, [Reading(2, Unit.MAX), r], r)]
+    if t == ("data", 4):  # every Optional-with-default field explicitly None; untouched defaults; all overridden; one at a time
+        return [Query(**ALL_NONE_QUERY), Query(), Query("x", 3, 1.5, "", Side.LEFT, [], {}, Pt(0, -0.0), False, 7)] + [Query(**{k: None}) for k in ALL_NONE_QUERY]
+    if t == ("data", 5):
+        return [Batch(Query(**ALL_NONE_QUERY), [Query(limit=None), Query()], None), Batch(Query(), [], Query(**ALL_NONE_QUERY)), Batch(Query(tags=None))]
     if t == ("enum", 2):
         return [Unit.MIN, Unit.M]
     if t == ("enum", 3):
